@@ -1,28 +1,15 @@
-# Per-property configuration of bin/check.
+# Per-property configuration of bin/check: one JSON file per property under /verif/checks.
+import json, os, glob
+
 COMMON_TRUST = [
     "Lean 4.33.0 kernel (thorough tier: leanchecker re-check); axioms allowed: propext, Classical.choice, Quot.sound (audited per theorem each run)",
     "/verif/extract (go/ast translator + fact extractor) and /verif/harness (generators, canonicalisation), bin/check",
     "stub libxcrypto (RingCT proof systems are an ideal functionality; group arithmetic is libsodium's)",
 ]
 
-PROPS = {
-    "C17": {
-        "props_modules": ["LinkVerif.Props.C17Clip", "LinkVerif.Props.C17"],
-        "model_modules": ["LinkVerif.Model.ValSet"],
-        "gen_modules": ["ValSetArith"],
-        "driver": "C17",
-        "harness": "C17",
-        "level": "proof",
-        "trusted_base": COMMON_TRUST + [
-            "T1: safeAdd/safeSub/safeMul and the three *Clip functions are translated from types/validator_set.go on every run; the theorems are about that translation",
-            "hand-written model Model.ValSet (IncrementAccum, NewValidatorSet, Add/Update/Remove, TotalVotingPower) tied by differential runs against types.ValidatorSet",
-        ],
-        "assumptions": [
-            "validator addresses are distinct and of fixed length (20 bytes), so bytes.Compare is numeric comparison",
-            "cmn.Heap returns the maximum under accumComparable (container/heap); modelled as argmax",
-            "Validator.Hash covers (address, pubkey, coinbase, power); in the harness pubkey/coinbase are functions of the address",
-        ],
-        "open_statements": ["C17_path_statement (false of the current tree: known finding bulk-increment-path-dependence; counterexample kernel-checked)",
-                            "proportional (frequency bound) is checked by the run(n) monitor on the implementation, not yet a theorem"],
-    },
-}
+PROPS = {}
+_d = os.path.join(os.path.dirname(os.path.dirname(os.path.abspath(__file__))), "checks")
+for _f in sorted(glob.glob(os.path.join(_d, "C*.json"))):
+    _c = json.load(open(_f))
+    _c["trusted_base"] = COMMON_TRUST + _c.get("trusted_base", [])
+    PROPS[os.path.basename(_f)[:-5]] = _c
